@@ -296,6 +296,9 @@ class G(object):
         self.nsec += 1
         node = {'t': 'sec', 'level': level, 'star': o['star'] and r.random() < 0.15, 'title': self.inlines(1 if o['fonts'] else 0, False, r.choice([1, 2]), o['math'], False),
                 'c': self.blocks(depth, r.randint(0, 3)), 'subs': [], 'label': None, 'toc': None}
+        if o.get('empty_titles') and r.random() < o['empty_titles']:
+            # \section{}: a unit whose title has no text at all (it still is a unit, still gets its number and its file)
+            node['title'] = []
         if o.get('short_titles') and not node['star'] and r.random() < o['short_titles']:
             # \section[short title]{title}: the short form is what tables of contents and navigation print
             node['toc'] = self.no_bracket(self.inlines(0, False, 1, False, False))
